@@ -89,8 +89,8 @@ def check(chk: Check) -> None:
         paths = SymExec(F, fi).run()
         muts = mutation_events(F, paths)
         # closures created by the builtin (key=lambda ...) run on behalf of it
-        for p in paths[:1]:
-            for c in p.closures:
+        for c in om.all_closures(paths):
+            if True:
                 cps = closure_paths(F, fi, c)
                 for e, r, d in mutation_events(F, cps):
                     muts.append((e, r, d + ' (inside %s)' % c.qual))
@@ -106,8 +106,8 @@ def check(chk: Check) -> None:
             chk.ok(R1, ent.label, where, '%s: %d path(s), no mutation of an argument-derived value' % (ent.descr(), len(paths)))
         # R2
         allpaths = list(paths)
-        for p in paths[:1]:
-            for c in p.closures:
+        for c in om.all_closures(paths):
+            if True:
                 allpaths += closure_paths(F, fi, c)
         for p in allpaths:
             for e in p.events:
